@@ -130,7 +130,16 @@ class ProcessLauncher:
 
     def start(self, node_configurations):
         node_count_on_host = len(node_configurations)
-        return [self._start_node(node_configuration, node_count_on_host) for node_configuration in node_configurations]
+        nodes = []
+        try:
+            for node_configuration in node_configurations:
+                nodes.append(self._start_node(node_configuration, node_count_on_host))
+        except BaseException:
+            # the caller never gets to know the nodes that have been started so far and thus cannot stop them later
+            self.logger.exception("Could not start all nodes on this host. Stopping the [%d] node(s) that are already running.", len(nodes))
+            self.stop(nodes, metrics_store=None)
+            raise
+        return nodes
 
     def _start_node(self, node_configuration, node_count_on_host):
         host_name = node_configuration.ip
